@@ -20,7 +20,7 @@ NOT_DECIDED = "Completion time (needs the per-request timeouts of other layers a
 ASSUMPTIONS = ["FULL feature configuration", "mutable locals (backoff, busy, servers) appear under their initial-value names in terms"]
 
 T = 'hickory_resolver::name_server_pool::PoolState::try_send::{closure#0}'
-RES = r"await\(StreamExt::next\(Iterator::collect\(Iterator::map\(SmallVec::new\(\),closure:PoolState::try_send::\{closure#0\}::\{closure#1\}\)\)\)\)@Ready\.0@Some\.0\.1"
+RES = r"await\(StreamExt::next\(Iterator::collect\(Iterator::map\(SmallVec::new\(\),closure:PoolState::try_send::\{closure#0\}::\{closure@map#0\}\)\)\)\)@Ready\.0@Some\.0\.1"
 DEADLINE = r'<Instant as Add<Duration>>::add\(Instant::now\(\),\^arg1\.cx\.options\.timeout\)'
 PAST = rf'le:Instant\({DEADLINE},Instant::now\(\)\)'
 
@@ -64,7 +64,7 @@ def run(cx):
         first = [s for s in to if cx.has_guard(s, '^' + PAST + '$')]
         cx.check('C18.P1', len(first) == 1, f.path, 'returns', 'deadline-test-returns-Timeout', str(len(first)))
         build = cx.calls(f, r'Iterator::collect$')
-        build = [s for s in build if 'closure:PoolState::try_send::{closure#0}::{closure#1}' in s.term]
+        build = [s for s in build if 'closure:PoolState::try_send::{closure#0}::{closure@map#0}' in s.term]
         cx.check('C18.P1', len(build) == 1, f.path, 'calls', 'request-batch-site', str(len(build)))
         sl = cx.calls(f, r'Time::delay_for$')
         cx.check('C18.P1', len(sl) == 1, f.path, 'calls', 'single-sleep', str(len(sl)))
@@ -78,7 +78,7 @@ def run(cx):
         second = [s for s in to if s not in first]
         cx.guard('C18.P1', second, {'no-budget-left': rf'^Duration::is_zero\(Instant::saturating_duration_since\({DEADLINE},Instant::now\(\)\)\)$'}, fn=f)
     # ---------------------------------------------------------------- P2 de-duplication
-    g = cx.fn('C18.P2', '<hickory_resolver::name_server_pool::NameServerPool<P> as hickory_net::xfer::dns_handle::DnsHandle>::send::{closure#0}')
+    g = cx.fn('C18.P2', '<hickory_resolver::name_server_pool::NameServerPool<P> as hickory_net::xfer::dns_handle::DnsHandle>::send::{closure@once#0}')
     if g:
         lk = [s for s in cx.calls(g, r'lock_api::mutex::Mutex<R, T>::lock$|Mutex::lock$') if 'active_requests' in s.term]
         gt = cx.calls(g, r'HashMap<K, V, S, A>::get$|HashMap::get$')
